@@ -860,3 +860,41 @@ Proof.
   intros src tr dest acts H; destruct src, tr; vm_compute in H; try discriminate;
     injection H as <- <-; eexists; (split; [|reflexivity]); cbn; tauto.
 Qed.
+
+(** ------------------------------------------------------------------ 7. on_finished with Continue plugins registered *)
+
+(** the built-in on_finished of the Continue plugins ([cont_finished]) publishes only: no hook, no state change *)
+Lemma cont_finished_inv : forall n s,
+  st_fsm (cont_finished s n) = st_fsm s /\ hooks_of (trace (cont_finished s n)) = hooks_of (trace s).
+Proof.
+  induction n; intros s; cbn [cont_finished]; [split; reflexivity|].
+  destruct (filter (fun x => snd x) (cont_plugins s)) as [|[t b] l]; [split; reflexivity|].
+  match goal with |- context [cont_finished ?x n] => destruct (IHn x) as [E1 E2]; rewrite E1, E2 end.
+  split; reflexivity.
+Qed.
+
+Lemma run_tail_running :
+  run_tail Running = Some [PDo (fun s => set_started_ev s true); PDo (fun s => set_run_arg s None);
+                           PDo (fun s => set_st_fsm s Finished);
+                           PDo (fun s => let s3 := log_hook s HFinished None None in cont_finished s3 (length (cont_plugins s3)));
+                           PGate RT_G_fin; PDo change_state_hook; PGate RT_G_cs;
+                           PDo (fun s => set_run_finished s (Some true))].
+Proof. vm_compute. reflexivity. Qed.
+
+(** [hook_order_finish] without the hypothesis on the Continue plugins *)
+Theorem hook_order_finish_all : forall s,
+  match run_tail (st_fsm s) with Some k => Some (hook_order k s) | None => None end =
+  match st_fsm s with
+  | Running => Some [(HFinished, Finished); (HChangeState, Finished)]
+  | _ => Some []
+  end.
+Proof.
+  intros s; destruct (st_fsm s) eqn:E.
+  1,2,4,5: split_state s; cbn in E; try discriminate; vm_compute; reflexivity.
+  rewrite run_tail_running. f_equal. unfold hook_order. cbn [run_all].
+  match goal with |- context [cont_finished ?x ?n] =>
+    destruct (cont_finished_inv n x) as [E1 E2]; set (X := cont_finished x n) in *; clearbody X end.
+  unfold change_state_hook, log_hook, publish.
+  cbn [trace set_trace set_run_finished hooks_of h_hook h_fsm st_fsm].
+  rewrite ?E1, ?E2. destruct s; reflexivity.
+Qed.
